@@ -526,8 +526,7 @@ def propCheck (op : String) (a : List String) : Option (Bool Ã— String) :=
   | _, _ => none
 
 /-- C15 on the implementation's own answer: an operation that interprets ID strings must answer ERR (the shift helpers:
-empty IDs) when one of them is malformed.  `D14EARLY` tags the array overlap checks, which stop at the first
-overlapping pair and so may not look at a later malformed element (known finding). -/
+empty IDs) when one of them is malformed (this includes the array overlap checks, whose early return D14 was repaired). -/
 def rejectCheck (op : String) (a : List String) (impl : String) : Option (Bool Ã— String) :=
   match op, a with
   | "proj", [items, crs] => projCheck (commaSplit items) crs impl
@@ -551,8 +550,8 @@ def rejectCheck (op : String) (a : List String) (impl : String) : Option (Bool Ã
   | "ext2sp", [ids] => need (bad ar5 [ids]) "ACCEPT"
   | "ovE", [x, y] => need (!extOk x || !extOk y) "ACCEPT"
   | "ovS", [x, y] => need (!spOk x || !spOk y) "ACCEPT"
-  | "ovEA", [x, y] => need (bad extOk [x, y]) "D14EARLY"
-  | "ovSA", [x, y] => need (bad spOk [x, y]) "D14EARLY"
+  | "ovEA", [x, y] => need (bad extOk [x, y]) "ACCEPT"
+  | "ovSA", [x, y] => need (bad spOk [x, y]) "ACCEPT"
   | "shift", id :: _ => if !extOk id && impl != "" then some (false, "ACCEPT shift of a malformed ID is not empty") else none
   | "n6", [id] | "n8", [id] | "n26", [id] =>
     if !extOk id && (commaSplit impl).any (fun s => s != "") then some (false, "ACCEPT neighbours of a malformed ID") else none
